@@ -88,7 +88,7 @@ func H20c_url() {
 
 func H20c_url_twin() {
 	cfg := NewServerConfig()
-	cfg.URL = "https://" + vString(1) + ".nl"
+	cfg.URL = "https://" + string([]byte{'a' + byte(vRange(0, 25))}) + ".nl"
 	if u, err := cfg.ServerURL(); err == nil && u != nil {
 		vAssert(false, "H20c_url_twin.reach: reachable")
 	}
